@@ -393,7 +393,46 @@ func (g *genT) declItem(inStmtSection bool) []itemT {
 	}
 }
 
+// stmtItem: a statement of main; one in seven is the call of a function literal, `func() { s }()`.
 func (g *genT) stmtItem() itemT {
+	it := g.plainStmtItem()
+	if it.K == "stmt" && g.pick(7) == 0 {
+		it.S = &stmtT{K: "lit", S: it.S}
+	}
+	return it
+}
+
+// litBlock: the shape of seed C11-4 — a statement that starts with a function literal followed by 1–3
+// further simple statements (define, call with one argument, print), the last one ending in a
+// one-argument call (the parser's error recovery on the first attempt then runs into the end of the
+// text). With cutsFor's cut in front of it the block is the beginning of its own Eval.
+func (g *genT) litBlock() []itemT {
+	first := g.plainStmtItem()
+	for first.K != "stmt" {
+		g.locals = g.locals[:len(g.locals)-1] // the `x := e` that is dropped was never declared
+		first = g.plainStmtItem()
+	}
+	first.S = &stmtT{K: "lit", S: first.S}
+	out := []itemT{first}
+	for n := g.pick(3); n > 0; n-- {
+		out = append(out, g.plainStmtItem())
+	}
+	all := append(append([]string{}, g.vars...), g.locals...)
+	c := ctxT{vars: all}
+	if e := g.callExpr(0, c, ""); e != nil {
+		for e.K == "bin" { // the bare call: the text ends with `f(arg)`
+			e = e.A
+		}
+		if len(all) > 0 && g.pick(2) == 0 {
+			out = append(out, itemT{K: "stmt", S: &stmtT{K: "set", X: all[g.pick(len(all))], E: e}})
+		} else {
+			out = append(out, itemT{K: "stmt", S: &stmtT{K: "eval", E: e}})
+		}
+	}
+	return out
+}
+
+func (g *genT) plainStmtItem() itemT {
 	all := append(append([]string{}, g.vars...), g.locals...)
 	c := ctxT{vars: all}
 	switch k := g.pick(6); {
@@ -449,11 +488,18 @@ func (g *genT) program(thorough bool) []itemT {
 		items = append(items, itemT{K: "init", B: &bodyT{Stmts: g.stmts(1+g.pick(2), c, g.vars), Ret: num(0)}})
 	}
 	nStmt := 2 + g.pick(6)
+	litAt := -1
+	if g.pick(3) == 0 {
+		litAt = 1 + g.pick(nStmt)
+	}
 	for i := 0; i < nStmt; i++ {
 		if g.pick(6) == 0 {
 			items = append(items, g.declItem(true)...)
 		}
 		items = append(items, g.stmtItem())
+		if i+1 == litAt {
+			items = append(items, g.litBlock()...)
+		}
 	}
 	return append(items, g.dump()...)
 }
@@ -490,6 +536,12 @@ func cutsFor(rng *rand.Rand, items []itemT) []int {
 	for _, p := range rng.Perm(len(allowed))[:k] {
 		mark[allowed[p]] = true
 	}
+	// a statement that starts with a function literal begins its own Eval (three times out of four)
+	for b := 1; b < n; b++ {
+		if items[b].K == "stmt" && items[b].S.K == "lit" && items[b-1].isStmt() && rng.Intn(4) > 0 {
+			mark[b] = true
+		}
+	}
 	var out []int
 	last := 0
 	for i := 1; i < n; i++ {
@@ -522,11 +574,16 @@ func mentions(it *itemT, name string) bool {
 		we(e.A)
 		we(e.B)
 	}
-	ws := func(s *stmtT) {
+	var ws func(s *stmtT)
+	ws = func(s *stmtT) {
+		if s == nil {
+			return
+		}
 		if s.K == "set" && s.X == name {
 			found = true
 		}
 		we(s.E)
+		ws(s.S)
 	}
 	we(it.E)
 	if it.S != nil {
@@ -762,6 +819,9 @@ func (g *genT) history(thorough bool) (texts [][]itemT, note string) {
 		}
 		// uses after the redefinition
 		var use []itemT
+		if g.pick(4) == 0 {
+			use = append(use, g.litBlock()...)
+		}
 		for i := 1 + g.pick(3); i > 0; i-- {
 			use = append(use, g.stmtItem())
 		}
